@@ -77,6 +77,8 @@ macro_rules! c07_kernel_harness {
         }
     };
 }
+c07_kernel_harness!(c07_kernel32_b6, 32, 8, 6);
+c07_kernel_harness!(c07_kernel64_b6, 64, 16, 6);
 c07_kernel_harness!(c07_kernel32_b8, 32, 8, 8);
 c07_kernel_harness!(c07_kernel32_b12, 32, 8, 12);
 c07_kernel_harness!(c07_kernel32_b16, 32, 8, 16);
@@ -227,6 +229,9 @@ where
 
 #[kani::proof]
 #[kani::unwind(66)]
+fn c07_valid_only_canonical32_b5() { c07_valid_only_canonical::<32, 8>(5) }
+#[kani::proof]
+#[kani::unwind(66)]
 fn c07_valid_only_canonical32_b8() { c07_valid_only_canonical::<32, 8>(8) }
 #[kani::proof]
 #[kani::unwind(66)]
@@ -321,6 +326,9 @@ where
 
 #[kani::proof]
 #[kani::unwind(66)]
+fn c07_object_short_m5() { c07_object::<64, 32, 16, 8>(5) }
+#[kani::proof]
+#[kani::unwind(66)]
 fn c07_object_short_m8() { c07_object::<64, 32, 16, 8>(8) }
 #[kani::proof]
 #[kani::unwind(66)]
@@ -362,6 +370,9 @@ where
 
 #[kani::proof]
 #[kani::unwind(66)]
+fn c16_dual_pair_short_m5() { c16_dual_pair::<64, 32, 16, 8>(5) }
+#[kani::proof]
+#[kani::unwind(66)]
 fn c16_dual_pair_short_m8() { c16_dual_pair::<64, 32, 16, 8>(8) }
 #[kani::proof]
 #[kani::unwind(66)]
@@ -395,7 +406,7 @@ impl core::hash::Hasher for RecHasher {
 }
 
 #[kani::proof]
-#[kani::unwind(66)]
+#[kani::unwind(210)]
 fn c16_dual_hash_short_m8() {
     use core::hash::Hash;
     let ra = any_hash::<64, 32, false>(8, 8);
